@@ -64,6 +64,13 @@ package mcap
     safety C10
     ensures r1 == nil ==> r0 != nil && fresh(r0)
     loop 1 invariant offset >= 0 && offset <= len(buf)
+    ensures [statistics-fixed-fields] {C01 C08 C11} r1 == nil ==> r0.MessageCount == le64at(buf, 0) && r0.SchemaCount == le16at(buf, 8) && r0.ChannelCount == le32at(buf, 10)
+        && r0.AttachmentCount == le32at(buf, 14) && r0.MetadataCount == le32at(buf, 18) && r0.ChunkCount == le32at(buf, 22)
+        && r0.MessageStartTime == le64at(buf, 26) && r0.MessageEndTime == le64at(buf, 34)
+    ensures [channel-counts-come-from-the-declared-range-only] {C08 C11} r1 == nil ==> len(r0.ChannelMessageCounts) * 10 <= le32at(buf, 42) + 9
+    ensures [statistics-accepts-longer-records] {C11} len(buf) >= 46 && le32at(buf, 42) == 0 ==> r1 == nil
+    loop 1 invariant [entries-come-from-the-declared-range] {C08 C11} start == 46 && offset >= 46 && offset <= 46 + channelMessageCountLength + 9 && channelMessageCountLength == le32at(buf, 42)
+        && len(channelMessageCounts) >= 0 && len(channelMessageCounts) * 10 <= offset - 46
 @*/
 
 /*@ func ParseMessageIndex
@@ -290,6 +297,7 @@ package mcap
     safety C10
     requires r != nil
     ensures [source-fault-is-an-error-and-never-eof] {C15} (faulted() && !old(faulted()) ==> r2 != nil && !isEOF(r2)) && (old(faulted()) ==> faulted())
+    ensures [record-buffer-kept-or-fresh] {C12 C20 C01} (r2 == nil ==> base(r1) == base(buf) || fresh(r1)) && (r2 != nil ==> cap(r1) == 0)
 @*/
 
 /*@ func ParseHeader
@@ -460,6 +468,9 @@ package mcap
 /*@ spec queueInWindow(it) = forall(k, it.curMessageIndex, len(it.messageIndexes), inWindow(it.start, it.end, it.messageIndexes[k].timestamp))
 @*/
 
+/*@ spec slotsPrivate(it) = forall(s, 0, len(it.chunkSlots), base(it.chunkSlots[s].buf) != base(it.recordBuf) || base(it.chunkSlots[s].buf) == 0)
+@*/
+
 /*@ spec wfIndexed(it) = it != nil && wfLexer(it.lexer) && it.rs != nil
         && 0 <= it.curMessageIndex && it.curMessageIndex <= len(it.messageIndexes) && 0 <= it.curChunkIndex
         && forall(k, 0, len(it.chunkIndexes), it.chunkIndexes[k] != nil)
@@ -493,7 +504,9 @@ package mcap
     loop 1 backedge [every-metadata-index-is-kept] {C08 C02} tokenType == TokenMetadataIndex ==> len(it.metadataIndexes) == athead(len(it.metadataIndexes)) + 1 && it.metadataIndexes[len(it.metadataIndexes)-1] == idx_MetadataIndex
     loop 1 backedge [every-schema-is-kept] {C08 C12} tokenType == TokenSchema ==> smGet(it.schemas, schema.ID) == schema
     loop 1 backedge [statistics-kept] {C08} tokenType == TokenStatistics ==> it.statistics == stats
-    loop 1 backedge [unknown-summary-tokens-change-nothing] {C11} tokenType != TokenChunkIndex && tokenType != TokenAttachmentIndex && tokenType != TokenMetadataIndex ==> len(it.chunkIndexes) == athead(len(it.chunkIndexes))
+    loop 1 backedge [only-index-tokens-change-the-chunk-list] {C11 C12 C08} tokenType != TokenChunkIndex && tokenType != TokenAttachmentIndex && tokenType != TokenMetadataIndex ==> len(it.chunkIndexes) == athead(len(it.chunkIndexes))
+    ensures [slot-buffers-untouched] {C12 C20 C01} old(slotsPrivate(it)) ==> slotsPrivate(it)
+    loop 1 invariant [slot-buffers-untouched] {C12 C20 C01} old(slotsPrivate(it)) ==> slotsPrivate(it)
 @*/
 
 /*@ func (*indexedMessageIterator).loadChunk
@@ -528,6 +541,11 @@ package mcap
     ensures [source-fault-is-an-error-and-never-eof] {C15} (faulted() && !old(faulted()) ==> err != nil && !isEOF(err)) && (old(faulted()) ==> faulted())
     loop 1 invariant [no-fault-so-far] {C15} old(faulted()) ==> faulted()
     loop 2 invariant [no-fault-so-far] {C15} old(faulted()) ==> faulted()
+    requires [slot-buffers-are-not-the-read-buffer] {C12 C20 C01} slotsPrivate(it)
+    ensures [slot-buffers-are-not-the-read-buffer] {C12 C20 C01} slotsPrivate(it)
+    ensures [a-successful-load-read-the-whole-chunk-record] {C02 C04 C12} err == nil ==> len(it.recordBuf) == chunkIndex.ChunkLength
+    loop 1 invariant [slot-buffers-are-not-the-read-buffer] {C12 C20 C01} slotsPrivate(it)
+    loop 2 invariant [slot-buffers-are-not-the-read-buffer] {C12 C20 C01} slotsPrivate(it)
 @*/
 
 /*@ func (*indexedMessageIterator).NextInto
@@ -559,6 +577,10 @@ package mcap
     call seekTo#1 assert [metadata-located-by-its-index-offset] {C02} arg0 == idx.Offset
     call PopulateFrom#1 assert [message-data-is-copied-out-of-the-chunk-buffer] {C01} arg1 == true
     ensures [message-bound-to-its-channel-and-schema] {C01 C02} r3 == nil ==> r1 == smGet(it.channels, r2.ChannelID) && r1 != nil && r0 == smGet(it.schemas, r1.SchemaID) && (r1.SchemaID != 0 ==> r0 != nil)
+    requires [slot-buffers-are-not-the-read-buffer] {C12 C20 C01} slotsPrivate(it)
+    ensures [slot-buffers-are-not-the-read-buffer] {C12 C20 C01} r3 == nil ==> slotsPrivate(it)
+    loop 1 invariant [slot-buffers-are-not-the-read-buffer] {C12 C20 C01} slotsPrivate(it)
+    loop 2 invariant [slot-buffers-are-not-the-read-buffer] {C12 C20 C01} slotsPrivate(it)
 @*/
 
 /*@ func (*indexedMessageIterator).Next
@@ -735,6 +757,7 @@ package mcap
     ensures [file-crc-range-kept] {C06} fileCrcKept(w, old(w.w.crc.crc), old(crcFrom(w)))
     call writeRecord#1 assert [header-record-fields] {C01} arg1 == OpHeader && le32at(arg2, 0) == uint32(len(header.Profile)) && forall(k, 0, len(header.Profile), arg2[4 + k] == header.Profile[k])
         && le32at(arg2, 4 + len(header.Profile)) == uint32(len(library)) && len(arg2) == 8 + len(header.Profile) + len(library) && (w.opts.OverrideLibrary ==> library == header.Library)
+    ensures [header-record-size] {C01 C05} r0 == nil && w.opts.OverrideLibrary ==> w.w.size == wrap64(old(w.w.size) + 17 + len(header.Profile) + len(header.Library))
 @*/
 
 /*@ func (*Writer).WriteFooter
@@ -910,6 +933,8 @@ package mcap
         && le32at(arg2, 10 + len(s.Name) + len(s.Encoding)) == uint32(len(s.Data)) && len(arg2) == 14 + len(s.Name) + len(s.Encoding) + len(s.Data)
         && forall(k, 0, len(s.Name), arg2[6 + k] == s.Name[k]) && forall(k, 0, len(s.Data), arg2[14 + len(s.Name) + len(s.Encoding) + k] == s.Data[k])
     requires [scratch-buffer-is-private] {C01} s != nil ==> base(s.Data) != base(w.msg)
+    ensures [schema-record-size] {C01 C05} err == nil && !(w.opts.Chunked && !old(w.closed)) ==> w.w.size == wrap64(old(w.w.size) + 23 + len(s.Name) + len(s.Encoding) + len(s.Data))
+    ensures [schema-record-size] {C01 C05} err == nil && w.opts.Chunked && !old(w.closed) && old(w.compressedWriter.size) < 4611686018427387904 ==> w.compressedWriter.size == old(w.compressedWriter.size) + 23 + len(s.Name) + len(s.Encoding) + len(s.Data)
 @*/
 
 /*@ func (*Writer).WriteChannel
@@ -1126,6 +1151,9 @@ package mcap
     call writeRecord#2 assert [message-record-fields] {C01} arg1 == OpMessage && len(arg2) == 22 + len(m.Data) && le16at(arg2, 0) == m.ChannelID && le32at(arg2, 2) == m.Sequence && le64at(arg2, 6) == m.LogTime && le64at(arg2, 14) == m.PublishTime
         && forall(k, 0, len(m.Data), arg2[22 + k] == m.Data[k])
     requires [scratch-buffer-is-private] {C01} base(m.Data) != base(w.msg)
+    ensures [message-record-is-31-bytes-plus-data] {C01 C05} r0 == nil && !(w.opts.Chunked && !old(w.closed)) ==> w.w.size == wrap64(old(w.w.size) + 31 + len(m.Data))
+    ensures [message-record-is-31-bytes-plus-data] {C01 C05} r0 == nil && w.opts.Chunked && !old(w.closed) && len(w.ChunkIndexes) == old(len(w.ChunkIndexes)) && old(w.compressedWriter.size) < 4611686018427387904
+        ==> w.compressedWriter.size == old(w.compressedWriter.size) + 31 + len(m.Data)
 @*/
 
 /*@ func newCRCWriter
